@@ -302,4 +302,29 @@ let handle (w : string list) : string =
     st := s1.FilesDescC16c.dd_fs;
     let calls = List.map (fun (c, failed) -> desc_call_letter c ^ (if failed then "!" else "")) (List.rev s1.FilesDescC16c.dd_calls) in
     "SETX code=" ^ string_of_z (FilesDescC16c.code_of_c16c o) ^ " calls=" ^ (if calls = [] then "-" else String.concat "," calls)
+  | ["NEWACCX"; u; k; tpls] ->
+    (* replyCreateUser (Sys/FilesAccC16c.v); the driver sends no credentials and none are required *)
+    let uid = n_of_string u in
+    let s0 = { FilesAccC16c.aa_fs = !st; aa_calls = [] } in
+    let urls = List.map bytes_of_string (expand_list tpls) in
+    let run ft = FilesAccC16c.create_user_c16c ft true (bytes_of_string serve_url) s0 uid true urls in
+    let nf = FilesAccC16c.no_acc_faults_c16c in
+    let ft =
+      if k = "-" then nf else
+      let (sn, _) = run nf in
+      match List.nth_opt (List.rev sn.FilesAccC16c.aa_calls) (int_of_string k - 1) with
+      | Some (FilesAccC16c.AUniqueC16c, _) -> { nf with FilesAccC16c.af_unique = true }
+      | Some (FilesAccC16c.AUserCreateC16c, _) -> { nf with FilesAccC16c.af_create = true }
+      | Some (FilesAccC16c.ATopicShareC16c, _) -> { nf with FilesAccC16c.af_share = true }
+      | Some (FilesAccC16c.AAuthAddC16c, _) -> { nf with FilesAccC16c.af_auth = true }
+      | Some (FilesAccC16c.AFileLinkC16c, _) -> { nf with FilesAccC16c.af_link = true }
+      | Some (FilesAccC16c.AUserDeleteC16c, _) | None -> nf in
+    let (s1, o) = run ft in
+    st := s1.FilesAccC16c.aa_fs;
+    let letter = function
+      | FilesAccC16c.AUniqueC16c -> "Q" | FilesAccC16c.AUserCreateC16c -> "C" | FilesAccC16c.ATopicShareC16c -> "H"
+      | FilesAccC16c.AAuthAddC16c -> "A" | FilesAccC16c.AUserDeleteC16c -> "D" | FilesAccC16c.AFileLinkC16c -> "L" in
+    let calls = List.map (fun (c, failed) -> letter c ^ (if failed then "!" else "")) (List.rev s1.FilesAccC16c.aa_calls) in
+    "NEWACCX code=" ^ string_of_z o.FilesAccC16c.ao_code
+    ^ " calls=" ^ String.concat "," calls
   | _ -> "?"
